@@ -173,30 +173,45 @@ Definition set_merge (st : pstate) (path : string) (v : value) : pstate :=
   {| ps_hide_id := ps_hide_id st; ps_include := ps_include st; ps_exclude := ps_exclude st;
      ps_merge := merge_set (ps_merge st) path v; ps_skip := ps_skip st |}.
 
+Definition add_include (st : pstate) (path : string) : pstate :=
+  {| ps_hide_id := ps_hide_id st; ps_include := (ps_include st ++ [path])%list;
+     ps_exclude := ps_exclude st; ps_merge := ps_merge st; ps_skip := ps_skip st |}.
+
+Definition add_exclude (st : pstate) (path : string) : pstate :=
+  {| ps_hide_id := ps_hide_id st; ps_include := ps_include st;
+     ps_exclude := (ps_exclude st ++ [path])%list; ps_merge := ps_merge st; ps_skip := ps_skip st |}.
+
+Definition set_hide_id (st : pstate) : pstate :=
+  {| ps_hide_id := true; ps_include := ps_include st; ps_exclude := ps_exclude st;
+     ps_merge := ps_merge st; ps_skip := ps_skip st |}.
+
+Definition add_skip (st : pstate) (path : string) : pstate :=
+  {| ps_hide_id := ps_hide_id st; ps_include := ps_include st; ps_exclude := ps_exclude st;
+     ps_merge := ps_merge st;
+     ps_skip := if str_mem path (ps_skip st) then ps_skip st else (ps_skip st ++ [path])%list |}.
+
+(* :126-139 inclusion (Ok true) or exclusion (Ok false): bools, and numbers
+   of all four numeric types that compare equal to 1 / 0 *)
+Definition condition_value (v : value) : res bool :=
+  match v with
+  | VBool b => Ok b                                          (* :129-130 *)
+  | _ =>
+      match compare v (VInt64 1) with                        (* :132 *)
+      | Eq => Ok true
+      | _ =>
+          match compare v (VInt64 0) with                    (* :134 *)
+          | Eq => Ok false
+          | _ => Err                                         (* :137 *)
+          end
+      end
+  end.
+
 (* :122-151 projectCondition *)
 Definition project_condition : operator pstate := fun st _ _ path v =>
-  let* include :=
-    match v with
-    | VBool b => Ok b                                        (* :129-130 *)
-    | _ =>
-        match compare v (VInt64 1) with                      (* :132 *)
-        | Eq => Ok true
-        | _ =>
-            match compare v (VInt64 0) with                  (* :134 *)
-            | Eq => Ok false
-            | _ => Err                                       (* :137 *)
-            end
-        end
-    end in
-  if include then                                            (* :142-143 *)
-    Ok {| ps_hide_id := ps_hide_id st; ps_include := (ps_include st ++ [path])%list;
-          ps_exclude := ps_exclude st; ps_merge := ps_merge st; ps_skip := ps_skip st |}
-  else if String.eqb path "_id" then                         (* :144-145 *)
-    Ok {| ps_hide_id := true; ps_include := ps_include st; ps_exclude := ps_exclude st;
-          ps_merge := ps_merge st; ps_skip := ps_skip st |}
-  else                                                       (* :147 *)
-    Ok {| ps_hide_id := ps_hide_id st; ps_include := ps_include st;
-          ps_exclude := (ps_exclude st ++ [path])%list; ps_merge := ps_merge st; ps_skip := ps_skip st |}.
+  let* include := condition_value v in
+  if include then Ok (add_include st path)                   (* :142-143 *)
+  else if String.eqb path "_id" then Ok (set_hide_id st)     (* :144-145 *)
+  else Ok (add_exclude st path).                             (* :147 *)
 
 (* :241-252 projectSliceInt; None = (0, false) *)
 Definition project_slice_int (v : value) : res (option Z) :=
@@ -403,10 +418,7 @@ Section WithMatch.
   Definition project_elem_match : operator pstate := fun st d _ path v =>
     match v with
     | VDoc query =>                                          (* :259 *)
-        let st1 :=                                           (* :267-268 *)
-          {| ps_hide_id := ps_hide_id st; ps_include := (ps_include st ++ [path])%list;
-             ps_exclude := ps_exclude st; ps_merge := ps_merge st;
-             ps_skip := if str_mem path (ps_skip st) then ps_skip st else (ps_skip st ++ [path])%list |} in
+        let st1 := add_skip (add_include st path) path in    (* :267-268 *)
         match Get d path with                                (* :271 *)
         | VArr a =>
             let* m := first_match a query in
@@ -560,12 +572,12 @@ Definition spelling_clash (pr : doc) : bool :=
   let ks := map (fun kv => split_path (fst kv)) pr in
   existsb (fun p => existsb (fun q => spelling_diff p q) ks) ks.
 
-(* does v count as an inclusion for projectCondition *)
+(* does v count as an inclusion / exclusion for projectCondition *)
 Definition is_inclusion_value (v : value) : bool :=
-  match v with
-  | VBool b => b
-  | _ => match compare v (VInt64 1) with Eq => true | _ => false end
-  end.
+  match condition_value v with Ok true => true | _ => false end.
+
+Definition is_exclusion_value (v : value) : bool :=
+  match condition_value v with Ok false => true | _ => false end.
 
 (* syntactic form of the colliding-paths situation: an included path, or _id
    (always copied by an inclusion), is a proper prefix of an operator path *)
